@@ -164,3 +164,124 @@ def static_field(name, struct, n_items, item_byte_size):
     f._structure = struct
     f._env_data_desc = None
     return f
+
+
+# ------------------------------------------------------------------------------------------------ further DOP kinds
+from odxtools.determinenumberofitems import DetermineNumberOfItems  # noqa: E402
+from odxtools.diagnostictroublecode import DiagnosticTroubleCode  # noqa: E402
+from odxtools.dtcdop import DtcDop  # noqa: E402
+from odxtools.dynamiclengthfield import DynamicLengthField  # noqa: E402
+from odxtools.leadinglengthinfotype import LeadingLengthInfoType  # noqa: E402
+
+
+def leading_length_type(dt=DataType.A_BYTEFIELD, bits=8, enc=None, hl=None):
+    return LeadingLengthInfoType(base_data_type=dt, base_type_encoding=enc, is_highlow_byte_order_raw=hl,
+                                 bit_length=bits)
+
+
+def dynamic_length_field(name, struct, count_dop, offset=1, count_byte_position=0):
+    det = DetermineNumberOfItems(byte_position=count_byte_position, bit_position=None,
+                                 dop_ref=OdxLinkRef.from_id(count_dop.odx_id))
+    det._dop = count_dop
+    f = DynamicLengthField(odx_id=OdxLinkId(f"id.{name}", FRAGS), oid=None, short_name=name, long_name=None,
+                           description=None, admin_data=None, sdgs=[],
+                           structure_ref=OdxLinkRef.from_id(struct.odx_id), structure_snref=None,
+                           env_data_desc_ref=None, env_data_desc_snref=None, is_visible_raw=None, offset=offset,
+                           determine_number_of_items=det)
+    f._structure = struct
+    f._env_data_desc = None
+    return f
+
+
+def dtc(code, name):
+    return DiagnosticTroubleCode(odx_id=OdxLinkId(f"id.dtc.{name}", FRAGS), oid=None, short_name=name,
+                                 long_name=None, description=None, trouble_code=code, text=name,
+                                 display_trouble_code=None, level=None, is_temporary_raw=None, sdgs=[])
+
+
+def dtc_dop(name, dtcs, bits=16):
+    d = DtcDop(odx_id=OdxLinkId(f"id.{name}", FRAGS), oid=None, short_name=name, long_name=None, description=None,
+               admin_data=None, sdgs=[], diag_coded_type=std_type(bits),
+               physical_type=PhysicalType(base_data_type=DataType.A_UINT32, display_radix=None, precision=None),
+               compu_method=identical(DataType.A_UINT32), dtcs_raw=list(dtcs), linked_dtc_dops_raw=[],
+               is_visible_raw=None)
+    d._dtcs = NamedItemList(dtcs)
+    d._linked_dtc_dops = NamedItemList()
+    return d
+
+
+from odxtools.multiplexer import Multiplexer  # noqa: E402
+from odxtools.multiplexercase import MultiplexerCase  # noqa: E402
+from odxtools.multiplexerswitchkey import MultiplexerSwitchKey  # noqa: E402
+
+
+def mux(name, key_dop, cases, byte_position=1, key_byte_position=0):
+    """cases: list of (case name, lower, upper, structure or None)"""
+    sk = MultiplexerSwitchKey(byte_position=key_byte_position, bit_position=None,
+                              dop_ref=OdxLinkRef.from_id(key_dop.odx_id))
+    sk._dop = key_dop
+    mcs = []
+    for (cname, lo, hi, st) in cases:
+        c = MultiplexerCase(short_name=cname, long_name=None, description=None,
+                            structure_ref=None if st is None else OdxLinkRef.from_id(st.odx_id),
+                            structure_snref=None,
+                            lower_limit=Limit(value_raw=str(lo), value_type=DataType.A_UINT32,
+                                              interval_type=IntervalType.CLOSED),
+                            upper_limit=Limit(value_raw=str(hi), value_type=DataType.A_UINT32,
+                                              interval_type=IntervalType.CLOSED))
+        c._structure = st
+        mcs.append(c)
+    return Multiplexer(odx_id=OdxLinkId(f"id.{name}", FRAGS), oid=None, short_name=name, long_name=None,
+                       description=None, admin_data=None, sdgs=[], byte_position=byte_position, switch_key=sk,
+                       default_case=None, cases=NamedItemList(mcs), is_visible_raw=None)
+
+
+from odxtools.parameters.tablekeyparameter import TableKeyParameter  # noqa: E402
+from odxtools.parameters.tablestructparameter import TableStructParameter  # noqa: E402
+from odxtools.table import Table  # noqa: E402
+from odxtools.tablerow import TableRow  # noqa: E402
+
+
+def table(name, key_dop, rows):
+    """rows: list of (row name, key value, structure or None, dop or None)"""
+    t = Table(odx_id=OdxLinkId(f"id.{name}", FRAGS), oid=None, short_name=name, long_name=None, description=None,
+              semantic=None, key_label=None, struct_label=None, admin_data=None,
+              key_dop_ref=OdxLinkRef.from_id(key_dop.odx_id), table_rows_raw=[], table_diag_comm_connectors=[], sdgs=[])
+    t._key_dop = key_dop
+    trs = []
+    for (rname, key, st, d) in rows:
+        tr = TableRow(odx_id=OdxLinkId(f"id.{name}.{rname}", FRAGS), oid=None, short_name=rname, long_name=None,
+                      description=None, key_raw=str(key), table_ref=OdxLinkRef.from_id(t.odx_id),
+                      dop_ref=None if d is None else OdxLinkRef.from_id(d.odx_id), dop_snref=None,
+                      structure_ref=None if st is None else OdxLinkRef.from_id(st.odx_id), structure_snref=None,
+                      sdgs=[], audience=None, functional_class_refs=[], state_transition_refs=[],
+                      pre_condition_state_refs=[], admin_data=None, is_executable_raw=None, semantic=None,
+                      is_mandatory_raw=None, is_final_raw=None)
+        tr._structure = st
+        tr._dop = d
+        tr._key = key
+        tr._table = t
+        trs.append(tr)
+    t.table_rows_raw = list(trs)
+    t._table_rows = NamedItemList(trs)
+    return t
+
+
+def table_key(name, tbl, byte_position=None, fixed_row=None):
+    p = TableKeyParameter(oid=None, short_name=name, long_name=None, description=None, semantic=None,
+                          byte_position=byte_position, bit_position=None, sdgs=[],
+                          odx_id=OdxLinkId(f"id.{name}", FRAGS), table_ref=OdxLinkRef.from_id(tbl.odx_id),
+                          table_snref=None,
+                          table_row_ref=None if fixed_row is None else OdxLinkRef.from_id(fixed_row.odx_id),
+                          table_row_snref=None)
+    p._table = tbl
+    p._table_row = fixed_row
+    return p
+
+
+def table_struct(name, key_param, byte_position=None):
+    p = TableStructParameter(oid=None, short_name=name, long_name=None, description=None, semantic=None,
+                             byte_position=byte_position, bit_position=None, sdgs=[],
+                             table_key_ref=OdxLinkRef.from_id(key_param.odx_id), table_key_snref=None)
+    p._table_key = key_param
+    return p
